@@ -101,7 +101,8 @@ MUTANTS = [
  dict(id="C19", name="channel_ignored", edits=[(AU, "        par_id = channel*128 + type;", "        par_id = type;")]),
  dict(id="C19", name="offset_sign_flipped_benign", expect=0, edits=[(AU, "    float center = (mn+mx)*(0.5 + au.map.offset/100.0);", "    float center = (mn+mx)*(0.5 - au.map.offset/100.0);")]),
  dict(id="C19", name="clear_keeps_cc_binding", edits=[(AU, "    s.learning = -1;\n    s.midi_cc  = -1;", "    s.learning = -1;")]),
- dict(id="C19", name="waiting_slot_requeued", edits=[(AU, "    if(start_midi_learn && slots[slot].learning == -1 && slots[slot].midi_cc == -1)", "    if(start_midi_learn && slots[slot].midi_cc == -1)")]),
+ dict(id="C19", name="waiting_slot_requeued", edits=[(AU, "    if(start_midi_learn && slots[slot].learning == -1 &&\n            slots[slot].midi_cc == -1 && slots[slot].midi_nrpn == -1)", "    if(start_midi_learn &&\n            slots[slot].midi_cc == -1 && slots[slot].midi_nrpn == -1)")]),
+ dict(id="C19", name="nrpn_bound_slot_requeued", edits=[(AU, "            slots[slot].midi_cc == -1 && slots[slot].midi_nrpn == -1)", "            slots[slot].midi_cc == -1)")]),
  dict(id="C19", name="incomplete_nrpn_learns", edits=[(AU, "        } else //incomplete NRPN sequence: nothing to drive or learn yet\n            return 0;", "        }")]),
  dict(id="C19", name="nrpn_state_uninitialised", edits=[(AU, "    NRPN.parhi = NRPN.parlo = NRPN.valhi = NRPN.vallo = -1;\n", "")]),
  dict(id="C19", name="gain_range_halved", edits=[(AU, "    float range  = (mx-mn)*au.map.gain/100.0;", "    float range  = (mx-mn)*au.map.gain/200.0;")]),
@@ -119,7 +120,7 @@ MUTANTS = [
             rLIMIT(var, atof) \\""", """            rTYPE(name) var = rtosc_argument(msg, 0).f; \\
             rLIMIT(var, atoi) \\""")]),
  dict(id="C14", name="toggle_no_broadcast", edits=[(PS, """            if(obj->name != rtosc_argument(msg, 0).T) { \\
-                data.broadcast(loc, args);\\
+                data.broadcast(loc, rtosc_argument(msg, 0).T ? \"T\" : \"F\");\\
                 obj->name = rtosc_argument(msg, 0).T; \\""", """            if(obj->name != rtosc_argument(msg, 0).T) { \\
                 obj->name = rtosc_argument(msg, 0).T; \\""")]),
  dict(id="C14", name="string_truncated_one_short", edits=[(PS, "            strncpy(obj->name, rtosc_argument(msg, 0).s, length-1); \\\n            obj->name[length-1] = '\\0'; \\", "            strncpy(obj->name, rtosc_argument(msg, 0).s, length-2); \\\n            obj->name[length-2] = '\\0'; \\")]),
